@@ -71,7 +71,7 @@ func recursiveDoc(depth int) any {
 
 func init() {
 	register("C10", func(c *engine.Ctx) {
-		c.Rule = "random tree schemas without references; a random choice of factorable sub-schemas (objects, non-nullable typed scalars) is moved into $defs / definitions of the same file, or into sibling files in random directory layouts (.json / .yaml, with or without --resolve-extension, with or without a fragment); the inline program and the reference-form program are compiled and run on the same documents (valid, mutated, single deletions): same verdict, same re-marshalled value; every definition yields exactly one type used by all its referrers. Plus composition across documents: 2-3 files in star or chain layout and different directories, each with its own $defs under the same names (Base, Extra) but different content and the same reference texts used directly, as array items and as allOf/anyOf branches, compared with the single-file form in which every reference is replaced by its target. Plus near-duplicates across files: two sibling files each defining $defs/Options, differing in exactly one keyword (24 perturbations, both orders), both referenced from the main document, compared with the inlined form. Plus symbolic links: the referenced document reached through a symlinked directory (also nested) or being a symlink itself, containing a relative reference that climbs out with .., with a decoy where the unresolved path would lead. Plus self- and mutually recursive definitions with documents nested 1..60 deep (generation must terminate, all depths accepted). Distinct = distinct (form, verdict pair, document shape)."
+		c.Rule = "random tree schemas without references; a random choice of factorable sub-schemas (objects, non-nullable typed scalars) is moved into $defs / definitions of the same file, or into sibling files in random directory layouts (.json / .yaml as JSON text and as block YAML, with or without --resolve-extension, with a dot in the file stem, with or without a fragment); the inline program and the reference-form program are compiled and run on the same documents (valid, mutated, single deletions): same verdict, same re-marshalled value; every definition yields exactly one type used by all its referrers. Plus composition across documents: 2-3 files in star or chain layout and different directories, each with its own $defs under the same names (Base, Extra) but different content and the same reference texts used directly, as array items and as allOf/anyOf branches, compared with the single-file form in which every reference is replaced by its target. Plus near-duplicates across files: two sibling files each defining $defs/Options, differing in exactly one keyword (24 perturbations, both orders), both referenced from the main document, compared with the inlined form. Plus symbolic links: the referenced document reached through a symlinked directory (also nested) or being a symlink itself, containing a relative reference that climbs out with .., with a decoy where the unresolved path would lead. Plus self- and mutually recursive definitions with documents nested 1..60 deep (generation must terminate, all depths accepted). Distinct = distinct (form, verdict pair, document shape)."
 		c.Proofs([]string{"GJS.Props.C10"}, []string{
 			"GJS.Props.C10.spec_ref_is_inline", "GJS.Props.C10.extractRef_defs", "GJS.Props.C10.extractRef_definitions",
 			"GJS.Props.C10.extractRef_prefix_equiv", "GJS.Props.C10.extractRef_file", "GJS.Props.C10.cacheKey_separates_directories",
@@ -119,7 +119,7 @@ func init() {
 			}
 			inline := baseCase("c10-inline", root, docs)
 			// reference form
-			form := core.Pick(c.R, []string{"$defs", "definitions", "file", "file-fragment", "file-yaml", "file-noext"})
+			form := core.Pick(c.R, []string{"$defs", "definitions", "file", "file-fragment", "file-yaml", "file-noext", "file-noext-dotted-yaml", "file-block-yaml"})
 			refRoot := sgen.DeepCopy(root).(sgen.M)
 			defs := sgen.M{}
 			files := map[string][]byte{}
@@ -138,22 +138,29 @@ func init() {
 				case "definitions":
 					defs[name] = target
 					setProp(refRoot, p, sgen.M{"$ref": "#/definitions/" + name})
-				case "file", "file-yaml", "file-noext":
+				case "file", "file-yaml", "file-noext", "file-noext-dotted-yaml", "file-block-yaml":
 					dir := core.Pick(c.R, []string{"", "sub/", "../other/"})
 					ext := ".json"
-					if form == "file-yaml" {
+					if form == "file-yaml" || form == "file-noext-dotted-yaml" || form == "file-block-yaml" {
 						ext = ".yaml"
 					}
-					fname := dir + strings.ToLower(name) + ext
+					stem := strings.ToLower(name)
+					if form == "file-noext-dotted-yaml" {
+						stem += ".v1" // a dot in the stem: the part after it is not an extension
+					}
+					fname := dir + stem + ext
 					target["title"] = name
 					target["$id"] = "urn:" + strings.ToLower(name)
 					if target["type"] != "object" {
 						// a file's root that is a scalar is declared under the file-derived name
 					}
 					var data []byte
-					if form == "file-yaml" {
+					switch form {
+					case "file-yaml":
 						data = core.MustJSON(target) // JSON is YAML
-					} else {
+					case "file-noext-dotted-yaml", "file-block-yaml":
+						data = toYAML(target, false) // real block-style YAML
+					default:
 						data = core.MustJSON(target)
 					}
 					files["main/"+fname] = data
@@ -161,6 +168,10 @@ func init() {
 					if form == "file-noext" {
 						ref = dir + strings.ToLower(name)
 						cfg.ResolveExtensions = []string{".json"}
+					}
+					if form == "file-noext-dotted-yaml" {
+						ref = dir + stem
+						cfg.ResolveExtensions = []string{".json", ".yaml"}
 					}
 					setProp(refRoot, p, sgen.M{"$ref": ref})
 				case "file-fragment":
